@@ -1,4 +1,168 @@
+/-
+Property C07 — the constraint network only infers what is entailed.
+
+`Sat` (OratioModel/Sat/Core.lean) is the concrete model of `smt::sat_core` / `smt::clause`
+without theories: two watched literals, FIFO queue, trail with levels and reasons, first-UIP
+analysis, `record`, backjumping, `assume / pop / next / check / simplify_db`.  The theorems
+quantify over EVERY finite history of API calls that respects the documented preconditions
+(`Sat.pre`), for every fuel value for which the model's loops return.
+
+`orig` is the ghost set of clauses *added* to the network: the argument of every `new_clause`,
+the definitional clauses of every reified constructor, and the blocking clause (negated
+decisions) that each `next()` deliberately adds.
+-/
 import OratioModel
+import OratioProofs.Lemmas.SatCore
+
 namespace Oratio
-theorem C07_placeholder : Sat.init.nvars = 1 := by decide
+
+/-! ## vocabulary -/
+
+/-- `F ⊨ c` over assignments in which variable 0 is the false constant -/
+def Entails (F : Cnf) (c : Clause) : Prop := ∀ α : Asg, α 0 = false → α.cnf F = true → α.clause c = true
+def Unsat (F : Cnf) : Prop := ∀ α : Asg, α 0 = false → α.cnf F = false
+
+def unitsOf (ls : List Lit) : Cnf := ls.map (fun l => [l])
+
+/-- the API calls -/
+inductive SatOp where
+  | newVar
+  | clause (c : List Lit)
+  | eq (a b : Lit) | conj (ls : List Lit) | disj (ls : List Lit) | amo (ls : List Lit) | exo (ls : List Lit)
+  | propagate
+  | assume (p : Lit)
+  | pop
+  | next
+  | check (ls : List Lit)
+  | simplifyDb
+
+def SatOp.lits : SatOp → List Lit
+  | .clause c => c | .eq a b => [a, b] | .conj ls => ls | .disj ls => ls | .amo ls => ls | .exo ls => ls
+  | .assume p => [p] | .check ls => ls | _ => []
+
+/-- the documented preconditions, as a decidable test (the harness enforces the same) -/
+def Sat.pre (s : Sat) (op : SatOp) : Bool :=
+  !s.dead && op.lits.all (fun l => l.var < s.nvars) &&
+  match op with
+  | .newVar | .propagate => true
+  | .clause _ | .eq _ _ | .conj _ | .disj _ | .amo _ | .exo _ | .simplifyDb => s.rootLevel
+  | .assume p => s.queue.isEmpty && s.value p == none
+  | .pop => !s.rootLevel
+  | .next => s.queue.isEmpty
+  | .check ls => s.queue.isEmpty && ls.all (fun l => s.value l == none) && (ls.map (·.var)).Nodup
+
+/-- network state together with the ghost set of added clauses -/
+structure Run where
+  s : Sat
+  orig : Cnf
+
+def Run.init : Run := ⟨Sat.init, []⟩
+
+/-- one API call: new state, new ghost set, and the boolean answer (`true` for calls that
+    return no verdict).  `none`: precondition violated or fuel exhausted. -/
+def Run.step (fuel : Nat) (r : Run) (op : SatOp) : Option (Run × Bool) :=
+  if !r.s.pre op then none else
+  match op with
+  | .newVar => some (⟨(r.s.newVar).2, r.orig⟩, true)
+  | .clause c => let (b, s') := r.s.newClause c; some (⟨s', r.orig ++ [c]⟩, b)
+  | .eq a b => let s' := (r.s.newEq a b).2; some (⟨s', r.orig ++ s'.toEnc.cnf⟩, true)
+  | .conj ls => let s' := (r.s.newConj ls).2; some (⟨s', r.orig ++ s'.toEnc.cnf⟩, true)
+  | .disj ls => let s' := (r.s.newDisj ls).2; some (⟨s', r.orig ++ s'.toEnc.cnf⟩, true)
+  | .amo ls => let s' := (r.s.newAtMostOne ls).2; some (⟨s', r.orig ++ s'.toEnc.cnf⟩, true)
+  | .exo ls => let s' := (r.s.newExctOne ls).2; some (⟨s', r.orig ++ s'.toEnc.cnf⟩, true)
+  | .propagate => (r.s.propagate fuel).map fun (b, s') => (⟨s', r.orig⟩, b)
+  | .assume p => (r.s.assume p fuel).map fun (b, s') => (⟨s', r.orig⟩, b)
+  | .pop => some (⟨r.s.pop, r.orig⟩, true)
+  | .next =>
+    (r.s.next fuel).map fun (b, s') =>
+      (⟨s', if r.s.rootLevel then r.orig else r.orig ++ [r.s.decisions.map Lit.neg]⟩, b)
+  | .check ls => (r.s.check ls fuel).map fun (b, s') => (⟨s', r.orig⟩, b)
+  | .simplifyDb => (r.s.simplifyDb fuel).map fun (b, s') => (⟨s', r.orig⟩, b)
+
+/-- a whole history -/
+def Run.steps (fuel : Nat) (r : Run) : List SatOp → Option Run
+  | [] => some r
+  | op :: ops => match r.step fuel op with
+    | none => none
+    | some (r', _) => Run.steps fuel r' ops
+
+/-- what the network reports is sound -/
+structure Sat.Sound (orig : Cnf) (s : Sat) : Prop where
+  /-- every stored clause (problem or learnt) is a consequence of the added clauses -/
+  clauses : ∀ e ∈ s.cls, Entails orig e.2
+  /-- every assigned literal is a consequence of the added clauses and the standing decisions -/
+  trail : ∀ l ∈ s.trail, Entails (orig ++ unitsOf s.decisions) [l]
+  /-- the values reported are exactly the trail (plus the false constant) -/
+  values : ∀ v b, s.vals.getD v none = some b → (v = 0 ∧ b = false) ∨ (⟨v, b⟩ : Lit) ∈ s.trail
+  /-- every clause ever recorded (the observer hook of `record`) is a consequence of the added clauses -/
+  learnt : ∀ c ∈ s.log, Entails orig c
+  /-- an inconsistency reported at root level means the added clauses are unsatisfiable -/
+  dead : s.dead = true → Unsat orig
+  /-- nothing is forgotten: the stored clauses and root-level literals still imply every added clause -/
+  keeps : ∀ α : Asg, α 0 = false → α.cnf (s.cls.map (·.2)) = true →
+            (∀ l ∈ s.trail, s.level.getD l.var 0 = 0 → α.lit l = true) → α.cnf orig = true
+
+/-! ## the theorems -/
+
+/-- after ANY finite history of precondition-respecting calls the network is sound -/
+theorem C07_all_histories (fuel : Nat) (ops : List SatOp) (r : Run)
+    (h : Run.steps fuel Run.init ops = some r) : r.s.Sound r.orig := by sorry
+
+/-- one more call keeps soundness (the inductive step, usable from any reachable state) -/
+theorem C07_step_sound (fuel : Nat) (ops : List SatOp) (r r' : Run) (op : SatOp) (b : Bool)
+    (h : Run.steps fuel Run.init ops = some r) (hs : r.step fuel op = some (r', b)) : r'.s.Sound r'.orig := by sorry
+
+/-- a negative answer is never given for a satisfiable problem: `new_clause`, `propagate`,
+    `assume`, `simplify_db` (and `next` above root level) answer false only when the added
+    clauses are unsatisfiable; `check` only when they are unsatisfiable together with the
+    standing decisions and the given assumptions -/
+theorem C07_false_only_if_unsat (fuel : Nat) (ops : List SatOp) (r r' : Run) (op : SatOp)
+    (h : Run.steps fuel Run.init ops = some r) (hs : r.step fuel op = some (r', false)) :
+    match op with
+    | .check ls => Unsat (r.orig ++ unitsOf r.s.decisions ++ unitsOf ls)
+    | .next => r.s.rootLevel = true ∨ Unsat r'.orig
+    | _ => Unsat r'.orig := by sorry
+
+/-- after a successful propagation no stored clause is falsified and none is unit: unit
+    propagation reached its fixpoint (completeness of the two-watched-literal scheme) -/
+theorem C07_bcp_fixpoint (fuel : Nat) (ops : List SatOp) (r r' : Run) (op : SatOp)
+    (h : Run.steps fuel Run.init ops = some r) (hs : r.step fuel op = some (r', true))
+    (hop : op = .propagate ∨ (∃ p, op = .assume p) ∨ op = .next ∨ op = .simplifyDb) :
+    r'.s.queue = [] ∧
+    ∀ e ∈ r'.s.cls, (∃ l ∈ e.2, r'.s.value l = some true) ∨ 2 ≤ (e.2.filter (fun l => r'.s.value l = none)).eraseDups.length := by sorry
+
+/-- when every variable is assigned after a successful propagation, the assignment satisfies
+    every clause ever added -/
+theorem C07_total_assignment_satisfies_all (fuel : Nat) (ops : List SatOp) (r r' : Run) (op : SatOp)
+    (h : Run.steps fuel Run.init ops = some r) (hs : r.step fuel op = some (r', true))
+    (hop : op = .propagate ∨ (∃ p, op = .assume p) ∨ op = .next)
+    (htot : ∀ v, v < r'.s.nvars → r'.s.vals.getD v none ≠ none) :
+    Asg.cnf (fun v => (r'.s.vals.getD v none).getD false) r'.orig = true := by sorry
+
+/-- `next()` adds exactly one clause: the negation of the decisions standing when it is called -/
+theorem C07_next_blocks_only_current_decisions (fuel : Nat) (s s' : Sat) (b : Bool)
+    (hr : s.rootLevel = false) (h : s.next fuel = some (b, s')) :
+    ∃ rest, s'.log = s.log ++ (s.decisions.map Lit.neg) :: rest ∧
+      ∀ c ∈ rest, Entails (s.cls.map (·.2) ++ [s.decisions.map Lit.neg] ++ unitsOf (s.trail.filter (fun l => s.level.getD l.var 0 = 0))) c := by sorry
+
+/-- the constructors of the full model are those of the root-level model of C13 -/
+theorem C07_constructors_project (s : Sat) (a b : Lit) (ls : List Lit) :
+    ((s.newEq a b).1 = (s.toEnc.newEq a b).1 ∧ (s.newEq a b).2.toEnc = (s.toEnc.newEq a b).2) ∧
+    ((s.newConj ls).1 = (s.toEnc.newConj ls).1 ∧ (s.newConj ls).2.toEnc = (s.toEnc.newConj ls).2) ∧
+    ((s.newDisj ls).1 = (s.toEnc.newDisj ls).1 ∧ (s.newDisj ls).2.toEnc = (s.toEnc.newDisj ls).2) ∧
+    ((s.newAtMostOne ls).1 = (s.toEnc.newAtMostOne ls).1 ∧ (s.newAtMostOne ls).2.toEnc = (s.toEnc.newAtMostOne ls).2) ∧
+    ((s.newExctOne ls).1 = (s.toEnc.newExctOne ls).1 ∧ (s.newExctOne ls).2.toEnc = (s.toEnc.newExctOne ls).2) ∧
+    ((s.newClause ls).1 = (s.toEnc.newClause ls).1 ∧ (s.newClause ls).2.toEnc = (s.toEnc.newClause ls).2) := by sorry
+
+/-! ## non-vacuity: a concrete history with a conflict analysed above root level -/
+
+/-- (x1 ∨ x2), (¬x2 ∨ x3 ∨ x5), (¬x3 ∨ x4), (¬x3 ∨ ¬x4): deciding ¬x5 and then ¬x1 forces x2, x3,
+    x4 and a conflict; the learnt clause is asserted after backjumping -/
+def demoOps : List SatOp :=
+  [.newVar, .newVar, .newVar, .newVar, .newVar,
+   .clause [⟨1, true⟩, ⟨2, true⟩], .clause [⟨2, false⟩, ⟨3, true⟩, ⟨5, true⟩],
+   .clause [⟨3, false⟩, ⟨4, true⟩], .clause [⟨3, false⟩, ⟨4, false⟩], .propagate, .assume ⟨5, false⟩, .assume ⟨1, false⟩]
+
+example : ∃ r, Run.steps 100 Run.init demoOps = some r ∧ r.s.log ≠ [] ∧ r.s.dead = false := by sorry
+
 end Oratio
